@@ -91,22 +91,26 @@ def known_key(c):
     return None
 
 
-def evaluate(ck, cases, exe_model, exe_impl, model_args=()):
-    rc, mo, err = core.run_sharded(exe_model, [FUEL] + list(model_args), [c["sx"] for c in cases])
-    if rc:
-        ck.obligation("model-run", "internal", False, "rc=%s %s" % (rc, err[-600:]))
-    srcs, bares = [], []
-    for c, line in zip(cases, mo):
-        f = (line.split("\t") + ["", "", "", ""])[:4]
-        c["src"], c["bare_src"], c["m_c"], c["m_b"] = f
-        srcs.append("\t" + esc(f[0]))
-        bares.append("\t" + esc(f[1]))
-    rc, io, err = core.run_sharded(exe_impl, [], srcs + bares)
-    if rc:
-        ck.obligation("nkeval-run", "internal", False, "rc=%s %s" % (rc, err[-600:]))
-    n = len(cases)
-    for i, c in enumerate(cases):
-        c["i_c"], c["i_b"] = io[i], io[n + i]
+def evaluate(ck, cases, exe_model, exe_impl, model_args=(), batch=1500):
+    """Runs every case on the model (contracted and bare) and on nkeval, in batches (so that a stalled
+    shard only loses its own batch)."""
+    for start in range(0, len(cases), batch):
+        part = cases[start:start + batch]
+        rc, mo, err = core.run_sharded(exe_model, [FUEL] + list(model_args), [c["sx"] for c in part], timeout=3000)
+        if rc:
+            ck.obligation("model-run", "internal", False, "rc=%s %s" % (rc, err[-600:]))
+        srcs, bares = [], []
+        for c, line in zip(part, mo):
+            f = (line.split("\t") + ["", "", "", ""])[:4]
+            c["src"], c["bare_src"], c["m_c"], c["m_b"] = f
+            srcs.append("\t" + esc(f[0]))
+            bares.append("\t" + esc(f[1]))
+        rc, io, err = core.run_sharded(exe_impl, [], srcs + bares, timeout=3000)
+        if rc:
+            ck.obligation("nkeval-run", "internal", False, "rc=%s %s" % (rc, err[-600:]))
+        n = len(part)
+        for i, c in enumerate(part):
+            c["i_c"], c["i_b"] = io[i], io[n + i]
 
 
 def judge(ck, c):
@@ -125,12 +129,17 @@ def judge(ck, c):
     if c["src"].startswith("PARSE-ERROR") or "<internal>" in c["src"]:
         ck.obligation("generator:bad-case", "internal", False, c["sx"][:400])
         return
+    if "<missing>" in (c["i_c"], c["i_b"], c["m_c"]):
+        ck.count("cases_lost_to_a_stalled_run")      # the run itself is reported as `nkeval-run` / `model-run`
+        return
     if c["i_c"] in ("ERR Parse", "ERR Typecheck") or c["i_b"] in ("ERR Parse", "ERR Typecheck"):
         # the printed program is not a well-formed Nickel program: a defect of the generator/printer
         ck.obligation("generator:ill-formed-program", "internal", False, c["src"][:600])
         return
     # ---- direct oracle on the implementation (no model involved)
-    if klass.startswith("parametric"):
+    if klass == "free":
+        pass
+    elif klass.startswith("parametric"):
         if c["i_c"] != c["i_b"]:
             violated = True
             what = "spurious-blame" if c["i_c"] in BLAMEY else "result-differs"
@@ -152,7 +161,7 @@ def judge(ck, c):
     # ---- correspondence model vs implementation
     if c["m_c"] != c["i_c"] or c["m_b"] != c["i_b"]:
         ck.count("model_vs_impl_disagreements")
-        if not violated:
+        if not violated and ck.stats["model_vs_impl_disagreements"] <= 25:
             ck.obligation("correspondence:model-vs-nkeval", "correspondence", False,
                           "class %s prim %s\n%s\nimpl  contracted %s | bare %s\nmodel contracted %s | bare %s\ncase %s"
                           % (klass, prim, c["src"][:500], c["i_c"], c["i_b"], c["m_c"], c["m_b"], c["sx"][:500]))
@@ -214,6 +223,8 @@ def run(ck):
     ncorp = len(cases)
     n = 600 if ck.tier == "quick" else 20000
     cases += c11_gen.make_cases(rng, n)
+    # free-form stream: random (mostly ill-typed) programs with contracts anywhere; model fidelity only
+    cases += c11_gen.free_cases(rng.fork(), 300 if ck.tier == "quick" else 6000)
     evaluate(ck, cases, exe_model, exe_impl)
     for c in cases:
         judge(ck, c)
@@ -225,6 +236,7 @@ def run(ck):
                            "(prenex, mid-spine and higher-rank quantifiers; arrays, records with/without tails, callbacks); impl synthesised "
                            "from T as parametric, then optionally edited into inspect(path, primitive out of %d)/fabricate/tail-inspect/"
                            "tail-add/tail-fabricate/launder/alias; every case is run contracted and bare on nkeval and on the extracted model; "
+                           "plus a free-form stream of random (mostly ill-typed) programs with contracts on arbitrary subterms, compared model vs nkeval only; "
                            "non-trivial = mentions a forall; distinct by exact term" % len(c11_gen.INSPECTORS))
     ck.coverage["partial"] = ("parametric_erasure is proved for the typed fragment stated in Props/C11.v; enum rows, dictionaries and merge are "
                               "covered by the interpreter table only, not by the model")
